@@ -225,8 +225,15 @@ fn resize_case(r: usize, c: usize, r2: usize, c2: usize) -> Result<(), String> {
 
 fn norm_case(r: usize, c: usize, pat: usize) -> Result<(), String> {
     // integer-valued f64 data with mixed signs: column/row sums and max are exact
+    // patterns 2 and 3: pattern 0 scaled exactly by 2^600 / 2^-600 (squares and cubes leave the double range; every norm
+    // scales exactly, so the textbook value is representable)
+    let big = match pat {
+        2 => 2f64.powi(600),
+        3 => 2f64.powi(-600),
+        _ => 1.0,
+    };
     let v = |i: usize, j: usize| -> f64 {
-        let x = ((i * 7 + j * 3 + pat * 5) % 11) as f64 - 5.0;
+        let x = ((i * 7 + j * 3 + (pat % 2) * 5) % 11) as f64 - 5.0;
         if pat == 1 {
             -x * 2.0
         } else {
@@ -236,7 +243,7 @@ fn norm_case(r: usize, c: usize, pat: usize) -> Result<(), String> {
     let mut a = Matrix::<f64>::new(r, c, 0.0);
     for i in 0..r {
         for j in 0..c {
-            a[(i, j)] = v(i, j);
+            a[(i, j)] = v(i, j) * big;
         }
     }
     let mut n1 = 0.0f64;
@@ -256,6 +263,13 @@ fn norm_case(r: usize, c: usize, pat: usize) -> Result<(), String> {
             sq += v(i, j) * v(i, j);
             cube += v(i, j).abs().powi(3);
         }
+    }
+    if pat >= 2 {
+        ensure!(a.norm_1() == n1 * big && a.norm_inf() == ninf * big && a.norm_max() == nmax * big, "norm_1 / norm_inf / norm_max of the scaled matrix");
+        ensure!(mc::fl::ulps(a.norm_frob(), sq.sqrt() * big) <= 4, "norm_frob {:e} expected {:e} (entries scaled by {:e})", a.norm_frob(), sq.sqrt() * big, big);
+        ensure!(mc::fl::ulps(a.norm_p(2.0), sq.sqrt() * big) <= 4, "norm_p(2) {:e} expected {:e}", a.norm_p(2.0), sq.sqrt() * big);
+        ensure!(mc::fl::ulps(a.norm_p(3.0), cube.cbrt() * big) <= 8, "norm_p(3) {:e} expected {:e}", a.norm_p(3.0), cube.cbrt() * big);
+        return Ok(());
     }
     ensure!(a.norm_1() == n1, "norm_1 {} expected {}", a.norm_1(), n1);
     ensure!(a.norm_inf() == ninf, "norm_inf {} expected {}", a.norm_inf(), ninf);
@@ -637,11 +651,11 @@ fn main() {
         );
     }
     ctx.lattice(
-        "norms on integer-valued f64, shapes 0..=8 x 2 patterns",
-        n * n * 2,
-        |idx| format!("r={} c={} pattern={}", idx / 18, (idx / 2) % 9, idx % 2),
+        "norms on integer-valued f64, shapes 0..=8 x 4 patterns (two of them scaled by 2^600 / 2^-600)",
+        n * n * 4,
+        |idx| format!("r={} c={} pattern={}", idx / 36, (idx / 4) % 9, idx % 4),
         |idx, acc| {
-            let (r, c, p) = ((idx / 18) as usize, ((idx / 2) % 9) as usize, (idx % 2) as usize);
+            let (r, c, p) = ((idx / 36) as usize, ((idx / 4) % 9) as usize, (idx % 4) as usize);
             if r != c {
                 acc.nontriv("nonsquare");
             }
